@@ -201,7 +201,7 @@ func runThresh(t ev.TB, part string, c *Thresh) (classes []string, concluded boo
 		if st.UpstreamRequestRetry.Count() > 0 {
 			classes = append(classes, "warm:retry")
 		}
-		if r.did("reset")+r.did("close")+r.did("okclose") > 0 {
+		if r.did("reset")+r.did("vanish")+r.did("close")+r.did("okclose") > 0 {
 			classes = append(classes, "warm:reset")
 		}
 		if atomic.LoadInt32(&br.disconnects) > 0 {
